@@ -284,6 +284,7 @@ func cmdC14(c *ctx) {
 		// a helper function whose locals have constant / override-derived initialisers (exercises the clone of
 		// Functions[i].LocalVars[j].Init and rebuildFunctionExpressions on non-entry-point functions)
 		helperSrc := ""
+		hslot := -1
 		if c.chance(0.6) {
 			var iov *ovDecl
 			for k := range ovs {
@@ -307,6 +308,7 @@ func cmdC14(c *ctx) {
 					call := &wexpr{k: "callfn", ty: t, name: "hfun", args: []*wexpr{lit32(t, uint32(c.rng.Intn(20)))}}
 					st := encStores(call, t)
 					st[0].lhs.args[1].bits = uint32(slot)
+					hslot = slot
 					slot++
 					body = append(body, st...)
 				} else {
@@ -335,7 +337,7 @@ func cmdC14(c *ctx) {
 		emit := func(kase, impl string) {
 			c.line("cases.txt", kase)
 			c.line("impl.txt", impl)
-			c.line("tags.txt", knob+" "+strings.Join(mapS, ","))
+			c.line("tags.txt", fmt.Sprintf("%s hslot=%d %s", knob, hslot, strings.Join(mapS, ",")))
 			c.line("src.txt", q(src))
 		}
 		mod, res := frontEnd(src)
